@@ -204,4 +204,12 @@ example : (reportedWire false (synackBPFFilter range1) .ethernet 1518
 example : reportedWire true (synackBPFFilter range1) .ethernet 1518
     (.tcp { scanType := "tcpsyn", filter := .synack, flagsFn := .empty, vpn := false }) {} taggedSynAck = none := by decide
 
+
+/-- (T) the filter is applied to EVERY frame the processors see — also to the frames that reached the capture socket
+    between its creation and the moment the filter was attached (at the start of the scan and of every port chunk; a
+    SYN+ACK of any other host on the link arriving in that window was reported as an open port: D30):
+    `afpacket.Source.ReadPacketData` runs the program that `SetBPFFilter` attached on each frame once more, in user
+    space, and skips what it rejects.  `C03_wire` models exactly this: filter, then processor, for every frame. -/
+theorem capture_filter_applied_to_every_frame : SxVerif.Generated.userSpaceFilter = true := by decide
+
 end SxVerif.C03
